@@ -1,5 +1,6 @@
 import CifModel.Lemmas.Value
 import CifModel.Lemmas.HeapMap
+import CifModel.Lemmas.HeapPacket
 import CifModel.Gen.ValueCols
 /-
   Property C19 — value objects are independent deep values; lists and tables keep their contracts.
@@ -441,6 +442,86 @@ theorem C16_map_remove_item_heap_safe (h : Heap) (hw : h.WF) (ents : List Nat) (
         ∧ disjoint Fe F'' ∧ (∀ a, a ∈ F ↔ (a ∈ Fe ∨ a ∈ F''))
         ∧ ∀ a, a < h.next → h2.cell a = if a ∈ Fe then none else h.cell a) :=
   mapRemoveItemH_spec h hw ents es F nk hr hF
+
+/-- **`cif_packet_create` over a whole name list, and `cif_packet_free`** (heap level; names with their normalised forms):
+    pairwise different data names ⇒ a standalone packet whose entries represent each name under its original spelling with
+    the unknown value, built on fresh blocks, the temporary name array released, nothing older touched, every block still
+    live being the packet or owned by an entry — and `cif_packet_free` then releases all of it, each block once;
+    two names for one item ⇒ CIF_DUP_ITEMNAME with every block allocated on the way released: the heap is unchanged. -/
+theorem C16_packet_create_heap_safe (h : Heap) (hw : h.WF) (names : List (Str × Str)) :
+    ((names.map (·.2)).Nodup →
+      ∃ p ents h' F, packetCreateH h names = some (some (p, ents), h') ∧ h'.cell p = some (.pkt ents true)
+        ∧ RepEntries h' ents (names.map (fun n => (n.2, n.1, V.unk))) F ∧ h'.WF
+        ∧ (∀ a, a < h.next → h'.cell a = h.cell a) ∧ p ∉ F
+        ∧ (∀ a, a ∈ F → h.next ≤ a ∧ a < h'.next)
+        ∧ (∀ a, h.next ≤ a → (h'.cell a).isSome = true → a = p ∨ a ∈ F)
+        ∧ ∃ h'', packetFreeH (needEntries (names.map (fun n => (n.2, n.1, V.unk))) + 1) h' p = some h''
+            ∧ ∀ a, h''.cell a = h.cell a)
+    ∧ (¬ (names.map (·.2)).Nodup →
+      ∃ h', packetCreateH h names = some (none, h') ∧ ∀ a, h'.cell a = h.cell a) := by
+  obtain ⟨hgood, hdup⟩ := packetCreateH_spec h hw names
+  refine ⟨?_, hdup⟩
+  intro hnd
+  obtain ⟨p, ents, h', F, hop, hp, hrep, hw', hfr, hpF, hpge, hrange, hlive⟩ := hgood hnd
+  obtain ⟨h'', hfree, c⟩ := packetFreeH_spec h' p ents true _ F hp hrep hpF
+  refine ⟨p, ents, h', F, hop, hp, hrep, hw', hfr, hpF, hrange, hlive, h'', hfree, ?_⟩
+  intro a
+  rw [c.2 a]
+  by_cases hin : a ∈ F ++ [p]
+  · rw [if_pos hin]
+    have hge : h.next ≤ a := by
+      rcases List.mem_append.mp hin with hm | hm
+      · exact (hrange a hm).1
+      · simp only [List.mem_singleton] at hm; omega
+    rw [hw a hge]
+  · rw [if_neg hin]
+    simp only [List.mem_append, List.mem_singleton, not_or] at hin
+    by_cases hlt : a < h.next
+    · exact hfr a hlt
+    · rw [hw a (by omega)]
+      cases hc : h'.cell a with
+      | none => rfl
+      | some c' =>
+        exfalso
+        rcases hlive a (by omega) (by rw [hc]; rfl) with h1' | h1'
+        · exact hin.2 h1'
+        · exact hin.1 h1'
+
+/-- **`cif_value_get_keys` / `cif_packet_get_names`** (heap level): the array handed out holds pointers to the entries'
+    ORIGINAL keys — borrowed: each is a block the map owns, holding the spelling `Model.Value.mapKeys` reports, in
+    enumeration order —; the map is untouched, and releasing the array (the caller's only duty) restores the heap. -/
+theorem C16_get_keys_heap_safe (h : Heap) (ents : List Nat) (es : List (Str × Str × V)) (F : List Nat)
+    (hr : RepEntries h ents es F) :
+    ∃ kos, getKeysH h ents = some (h.next, kos, (alloc h (.arr kos (kos.length + 1))).2)
+      ∧ kos.map (fun ko => h.cell ko) = (Model.Value.mapKeys es).map (fun s => some (.str s))
+      ∧ (∀ ko, ko ∈ kos → ko ∈ F)
+      ∧ ∃ h'', free (alloc h (.arr kos (kos.length + 1))).2 h.next = some h'' ∧ h''.next = h.next + 1
+          ∧ ∀ a, h''.cell a = if a = h.next then none else h.cell a :=
+  getKeysH_spec h ents es F hr
+
+/-- **Clone onto an existing object, heap level, aliasing cases included** (repaired order f1b092b): any representation of
+    the source — inside the target, around it, or elsewhere — is still intact when the copy is taken; afterwards the
+    target object (same address, so references to it stay valid) represents the source's value on fresh blocks, every
+    block it owned before has been released exactly once, the scratch object is gone, nothing else changed. -/
+theorem C19_clone_onto_heap (h : Heap) (hw : h.WF) (t : Nat) (old : HVal) (vOld : V) (F : List Nat) (x : V)
+    (ht : h.cell t = some (.val old)) (hr : Rep h old vOld F) (hF : ∀ a, a ∈ F → a < h.next) (htlt : t < h.next)
+    (htF : t ∉ F) (hs : HVal) (Fs : List Nat) (hsrc : Rep h hs x Fs) (hFs : ∀ a, a ∈ Fs → a < h.next) :
+    Rep (buildNew h x).2 hs x Fs
+    ∧ ∃ h' new F', cloneOntoH (need vOld) h t x = some h' ∧ h'.cell t = some (.val new) ∧ Rep h' new x F' ∧ h'.WF
+      ∧ (∀ a, a ∈ F' → h.next ≤ a ∧ a < h'.next)
+      ∧ (∀ a, a < h.next → a ≠ t → h'.cell a = if a ∈ F then none else h.cell a)
+      ∧ (∀ a, h.next ≤ a → a < h'.next → a ∈ F' ∨ h'.cell a = none) :=
+  cloneOntoH_spec h hw t old vOld F x ht hr hF htlt htF hs Fs hsrc hFs
+
+/-- **(Re)initialisers at heap level** (`cif_value_init`, `init_char`, `copy_char`, `parse_numb` on an existing object): the
+    object stays where it is, the blocks it owned are released exactly once, the new content is built on fresh blocks,
+    nothing else is touched -/
+theorem C19_reinit_heap (h : Heap) (hw : h.WF) (t : Nat) (old : HVal) (vOld : V) (F : List Nat) (x : V)
+    (ht : h.cell t = some (.val old)) (hr : Rep h old vOld F) (hF : ∀ a, a ∈ F → a < h.next) (htlt : t < h.next) (htF : t ∉ F) :
+    ∃ h' new F', reinitH (need vOld) h t x = some h' ∧ h'.cell t = some (.val new) ∧ Rep h' new x F' ∧ h'.WF
+      ∧ (∀ a, a ∈ F' ↔ (h.next ≤ a ∧ a < h'.next))
+      ∧ (∀ a, a < h.next → a ≠ t → h'.cell a = if a ∈ F then none else h.cell a) :=
+  reinitH_spec h hw t old vOld F x ht hr hF htlt htF
 
 /-- F10 (repaired by 50deb6e): on the pinned tree recording a new spelling released the old original key even when
     it *was* the hash key — after `cif_packet_create({"_a"})` and `cif_packet_set_item("_A", …)` the next lookup reads a
